@@ -1397,6 +1397,11 @@ func (fr *Frame) sliceOp(st *State, x *ssa.Slice) {
 				st.env[x] = fr.val(st, x.X)
 				return
 			}
+			if x.High == nil && x.Max == nil {
+				// k[n:] - the suffix after n bytes
+				fr.bind(st, x, TV{r.define("keysuffix", SInt, app("kdrop", fr.tv(st, x.X).S, lo)), SInt, x.Type()})
+				return
+			}
 			r.warn("%s: slicing an abstract key", fr.fn.Name())
 			fr.bind(st, x, r.freshOf(st, "keyslice", x.Type()))
 			return
